@@ -460,10 +460,10 @@ func TestConcurrentSessions(t *testing.T) {
 	prevProcs := runtime.GOMAXPROCS(0)
 	defer runtime.GOMAXPROCS(prevProcs)
 	caseIdx := 0
-	// case counts: quick 75 (main) / 15 (race); thorough 600 per shard (main) / 120 (race)
+	// case counts: quick 75 (main) / 12 (race); thorough 600 per shard (main) / 120 (race)
 	weight := float64(hx.Pick(25, 15)) / 100
 	if os.Getenv("VERIF_VARIANT") == "race" {
-		weight = float64(hx.Pick(50, 30)) / 100 // the variant's base count is a tenth of the main one
+		weight = float64(hx.Pick(40, 30)) / 100 // the variant's base count is a tenth of the main one
 	}
 	hx.Check(t, weight, func(t *rapid.T) {
 		caseIdx++
